@@ -30,7 +30,10 @@ package dpipe
 
 //@ func (c *conn) SetReadDeadline(t time.Time) (err error)
 //@   requires c.readDeadline != nil
-//@   modifies lastUntil
+//@   modifies lastUntil, dlSetN, dlSetObj, dlSetTo
+//@   ensures [forward] (exists k mathint :: old(dlSetN) <= k && k < dlSetN && dlSetObj[k] == ref(c.readDeadline) && dlSetTo[k] == t) &&
+//@            (forall k mathint :: {dlSetTo[k]} old(dlSetN) <= k && k < dlSetN ==> dlSetTo[k] == t)
+//@   ensures [keep] dlSetN > old(dlSetN) && (forall k mathint :: {dlSetTo[k]} k < old(dlSetN) ==> dlSetTo[k] == old(dlSetTo[k]) && dlSetObj[k] == old(dlSetObj[k]))
 //@   ensures [nil] err == nil
 
 // the constructor establishes what Read/Write rely on
